@@ -55,6 +55,7 @@ def run(ctx):
     ctx.rule("R09.2", "ENUM-EXPAND: the #N expansion loops emit exactly the indices 0..N-1 (evaluated for N = 0..4), N = atoi of the text after '#', the set rtosc_match_number accepts")
     ctx.rule("R09.3", "KEYS: `enabled by` (port_is_enabled) and `self:` (walk_ports) are the literals rEnabledBy / rSelf emit")
     ctx.rule("R09.5", "CHILD-OBJECT: every recursion callback (rRecur, rRecurp, rRecurs, rRecursp) stores the child runtime object into data.obj before any return and before it dispatches - the walker reads the child pointer (and its null-ness) from there")
+    ctx.rule("R09.6", "ENABLED-BY-PARENT: walk_ports_recurse asks port_is_enabled with the runtime object of the level that owns the enabling toggle: no assignment to `runtime` (the child object) can reach that call")
     ctx.rule("R09.4", "TERMINATE: bytes appended to the name buffer through a cursor are followed by a NUL store (or snprintf) on every path before the buffer is handed to walk_ports_recurse / the walker callback")
 
     # ---------------- R09.1 walk_ports
@@ -210,6 +211,20 @@ def run(ctx):
     rself_names = [n for n in pm if n.startswith("self")]
     ctx.ob("R09.3", "walk_ports self port", len(rself_names) == 1 and rself_names[0] in selfs and "rSelf(" in src, site=A.where(fw), detail={"looked_up": selfs, "rSelf_port_name": rself_names},
            what="walk_ports looks up %s, rSelf names its port %s" % (selfs, rself_names))
+
+    # ---------------- R09.6
+    wr = _find(m, P, r'^walk_ports_recurse\(')
+    rts = FL.slot_of_local(wr, "runtime")
+    ctx.require(rts is not None, "walk_ports_recurse: runtime not found")
+    reassign = [i for i in wr.insts() if i.op == "store" and G.parse_store(i)[1] == rts and i.block is not wr.blocks[0]]
+    pie = [c for c in wr.calls() if not c.indirect and re.match(r'^port_is_enabled\(', P.dm(c.callee))]
+    ctx.require(len(pie) == 1, "walk_ports_recurse: call of port_is_enabled not found")
+    early = [i for i in reassign if FL.escapes(wr, i, [], pie) is not None]
+    # and the argument is the runtime variable itself
+    argd = wr.defs().get(pie[0].args[4]) if len(pie[0].args) > 4 else None
+    from_rt = argd is not None and argd.op == "load" and G.parse_load(argd) == rts
+    ctx.ob("R09.6", "walk_ports_recurse", from_rt and not early, site=pie[0].where(), detail={"passes_runtime": from_rt, "reassignments_reaching_the_call": [i.where() for i in early]},
+           what="walk_ports_recurse asks port_is_enabled with the child's runtime object (runtime is reassigned at %s before the call)" % [i.where() for i in early])
 
     # ---------------- R09.5
     from ..rules import sugar as S
